@@ -1,8 +1,32 @@
 """C18 - a custom lexer drives the parser under the same contract as the generated one."""
-import families, report, common_parse as cp
+import families, report, vlib, kernel, common_parse as cp
+
+RT_CPP = r'''#include "hv.h"
+using namespace ctpg;
+// the only way a custom lexer can report a match: recognized_term(index, length).  Both must arrive unchanged, for every size_t length.
+extern "C" __attribute__((noinline)) void k_rt(uint32_t idx, uint64_t len, uint64_t* out)
+{
+    recognized_term rt((size16_t)idx, (size_t)len);
+    out[0] = rt.term_idx; out[1] = rt.len;
+    recognized_term none;
+    out[2] = none.term_idx; out[3] = none.len;
+}
+'''
+def kernels(wd):
+    return [kernel.Kernel(wd, 'recognized_term', RT_CPP, protos=[('void', 'k_rt', ['uint32_t', 'uint64_t', 'uint64_t*'])],
+        inputs=[('IDX', 'uint32_t', 1), ('LENV', 'uint64_t', 1)], outputs=[('OUT', 'uint64_t', 4)], assume='IDX < 65535',
+        call_c='  K(k_rt)(IDX, LENV, OUT);',
+        oracle_c='''  CHECK(OUT[0] == IDX, "the term index returned by a custom lexer reaches the parser unchanged");
+  CHECK(OUT[1] == LENV, "the length returned by a custom lexer reaches the parser unchanged, for every size_t value (tokens longer than 65535 characters included)");
+  CHECK(OUT[2] == 65535, "the default-constructed result is the failure value");''',
+        witness='LENV > 70000 && OUT[1] == LENV', meta={'module': 'c18'})]
+def replay(r, wd):
+    k = kernels(wd)[0]; k.unit.build(); k.build_native(); return k.run_native('real', r['inputs'])
+
 def run(tier, seed):
     d = {g.name: g for g in families.g_dir() + families.g_err()}
     R = report.Run('C18', tier, seed); cases = []
+    kernel.run_kernels(R, kernels(vlib.workdir('C18')))
     if tier == 'quick': sel = [(d['etf'], [2]), (d['lrec'], [2]), (d['mutual'], [2])]; sel2 = [(d['er1'], [2]), (d['rrec'], [2])]
     else: sel = [(d[n], [1, 2, 3, 4]) for n in ('etf', 'lrec', 'rrece', 'nullrun', 'mutual', 'd1', 'd2', 'lalr', 'chain')]; sel2 = [(d[n], [2, 3, 4]) for n in ('er1', 'er2', 'd1', 'trail')]
     A = ['accept', 'value', 'messages', 'positions', 'lexcalls']
